@@ -228,6 +228,9 @@ def _or_fail(run: Run, prog: Program, model: Model) -> None:
 V_ = "d42/validation/_validator.py"
 F_ = "d42/validation/_formatter.py"
 MUTANTS = [
+    {"name": "typed-list elements that passed are remembered in a set keyed by (type, value)", "rule": "TOTAL",
+     "edits": [(V_, "            for index, elem in enumerate(value):\n                nested_path = deepcopy(path)[index]\n                res = type_schema.__accept__(self, value=elem, path=nested_path, **kwargs)\n                result.add_errors(res.get_errors())",
+                "            passed: Any = set()\n            for index, elem in enumerate(value):\n                if (type(elem), elem) in passed:\n                    continue\n                nested_path = deepcopy(path)[index]\n                res = type_schema.__accept__(self, value=elem, path=nested_path, **kwargs)\n                result.add_errors(res.get_errors())\n                if not res.has_errors():\n                    passed.add((type(elem), elem))")]},
     {"name": "value.version before the type guard", "rule": "TOTAL",
      "edits": [(V_, "        if error := self._validate_type(path, value, UUID):\n            return result.add_error(error)\n\n        if value.version != 4:",
                 "        if value.version != 4 and isinstance(value, UUID):\n            return result.add_error(\n                InvalidUUIDVersionValidationError(path, value, value.version, 4))\n\n        if error := self._validate_type(path, value, UUID):\n            return result.add_error(error)\n\n        if value.version != 4:")]},
